@@ -164,6 +164,13 @@ impl Session {
                     return Err(Error::SessionNotEstablished);
                 }
             };
+            if &enr.node_id() != remote_id {
+                warn!(
+                    node = %remote_id,
+                    "Peer's ENR does not match its claimed node id. Session could not be established",
+                );
+                return Err(Error::SessionNotEstablished);
+            }
             enr.public_key()
         };
 
